@@ -581,9 +581,13 @@ def run_check(spec, tier, seed, replay=None):
     if diffs:
         broken.append("correspondence: %d of %d cases differ (stream %s), first: %s" % (
             len(diffs), len(reqs), getattr(spec, "STREAM", pid), reqs[min(diffs, key=lambda j: len(reqs[j]))][:200]))
-    if broken and not violations and replay is None:
+    if broken and not violations and (replay is None or diffs):
+        # (replay mode: only a model/implementation difference on the replayed input is reported,
+        # in a file of its own so that the record of the last full run is kept)
         i = min(diffs, key=lambda j: len(reqs[j])) if diffs else None
-        path = write_replay(pid, "unproved.json", {
+        if replay is not None:
+            print("differs : the model's answer is not the implementation's (the judge alone does not fail this input)")
+        path = write_replay(pid, "unproved.json" if replay is None else "replay_differs.json", {
             "property": pid, "kind": "unproved", "seed": seed,
             "theorem_or_stream": broken,
             "first_differing_case": None if i is None else {"input": reqs[i], "impl_output": impl[i], "model_output": model[i], "judge_output": judge[i]},
